@@ -69,6 +69,9 @@ pub struct H2Peer {
     ping_acc: u64,
     pub pings_sent: u64,
     pub ping_acks: u64,
+    pending_open: Vec<usize>,
+    cluster: String,
+    w0: u32,
 }
 
 impl H2Peer {
@@ -82,7 +85,25 @@ impl H2Peer {
             first.extend_from_slice(&Frame::window_update(0, conn_window - 65535).encode());
         }
         p.ctl.push_back(Seg::meta(first));
-        for (i, sp) in plan.streams.iter().enumerate() {
+        // streams of the second wave are opened once the first exchange is over: by then the backend
+        // connection is established and sozu multiplexes them on it
+        let wave1 = if plan.second_wave && plan.streams.len() >= 3 { 1 } else { plan.streams.len() };
+        p.plan = Some(plan.clone());
+        p.cluster = cluster.to_string();
+        p.w0 = w0;
+        for i in 0..plan.streams.len() {
+            if i < wave1 { p.open_stream(i) } else { p.pending_open.push(i) }
+        }
+        p
+    }
+
+    fn open_stream(&mut self, i: usize) {
+        let plan = self.plan.clone().expect("client plan");
+        let w0 = self.w0;
+        let cluster = self.cluster.clone();
+        let p = self;
+        {
+            let sp = &plan.streams[i];
             let sid = 1 + 2 * i as u32;
             let path = format!("/{}/r{}/s{}", cluster, plan.run, sp.idx);
             let method = if sp.req.size == 0 && !sp.req.h2_cl { "GET" } else { "POST" };
@@ -105,7 +126,7 @@ impl H2Peer {
                                     pace: Pace::new(sp.req.wpause_every, sp.req.wpause_us), done: end_now, aborted: false, armed: true }),
                 recv: Some(RecvRec::new(MsgKey { run: plan.run, stream: sp.idx, dir: 1 }, plan.seed, p.sh.log.clone(), "Client")),
                 rplan: sp.client_read.clone(),
-                send_window: 65535, pending_grant: 0, grant_at: None, got_headers: false, counted: false, resp_headers_sent: false,
+                send_window: p.peer_initial_window, pending_grant: 0, grant_at: None, got_headers: false, counted: false, resp_headers_sent: false,
             };
             p.by_sid.insert(sid, p.streams.len());
             p.streams.push(st);
@@ -114,8 +135,6 @@ impl H2Peer {
                 p.ctl.push_back(Seg::meta(Frame::window_update(sid, sp.client_read.h2_window - w0).encode()));
             }
         }
-        p.plan = Some(plan);
-        p
     }
     /// server role (h2c backend): streams are created by the HEADERS sozu sends
     pub fn server(sh: Arc<Shared>, initial_window: u32, max_frame: u32, conn_window: u32) -> H2Peer {
@@ -132,7 +151,7 @@ impl H2Peer {
         H2Peer { sh, server, fb: FrameBuf::default(), hp: Hpack::default(), ctl: VecDeque::new(), streams: Vec::new(), by_sid: HashMap::new(),
                  conn_send_window: 65535, peer_initial_window: 65535, peer_max_frame: 16384, my_initial_window: w0, my_conn_window: conn_window.max(65535),
                  conn_consumed: 0, need_preface: false, rr: 0, dead: false, closing: CloseAction::None, goaway: None, protocol_errors: Vec::new(), plan: None,
-                 hdr_acc: None, foreign_answers: Vec::new(), frames_in: 0, peer_settings_seen: false, ping_every: 0, ping_acc: 0, pings_sent: 0, ping_acks: 0 }
+                 hdr_acc: None, foreign_answers: Vec::new(), frames_in: 0, peer_settings_seen: false, ping_every: 0, ping_acc: 0, pings_sent: 0, ping_acks: 0, pending_open: Vec::new(), cluster: String::new(), w0: 65535 }
     }
 
     fn release(&mut self, i: usize) {
@@ -252,6 +271,12 @@ impl H2Peer {
         }
         if self.stream_settled(i) {
             self.release(i);
+        }
+        if !self.server && !self.pending_open.is_empty() {
+            let todo = std::mem::take(&mut self.pending_open);
+            for j in todo {
+                self.open_stream(j);
+            }
         }
     }
 
@@ -620,7 +645,7 @@ impl Machine for H2Peer {
         if self.server {
             return false;
         }
-        self.ctl.is_empty() && (0..self.streams.len()).all(|i| self.stream_settled(i))
+        self.ctl.is_empty() && self.pending_open.is_empty() && (0..self.streams.len()).all(|i| self.stream_settled(i))
     }
     fn stall(&mut self, why: &str) {
         for i in 0..self.streams.len() {
